@@ -130,7 +130,7 @@ func markKinds(r *ev.Run, s *sto.Spec) {
 
 func main() {
 	ev.Main("C02", "exploration",
-		"per (backend, ingest path) session: seeded true blobs (sizes 0..64KiB+1, 1MiB in thorough; sha224/sha1/sha256; random/schema/text) each offered as itself and as 8 truncations, 4 extensions, 8 bit flips, 3 permutations, the same bytes under sha1/sha224/sha256 refs of other content, with failing sources, under refs of unknown hash names and under malformed names, before and after the true blob is stored, through 8 source-reader behaviours and 4 HTTP transports; multipart requests naming one ref twice (true bytes and a corruption, both orders); plus 16MiB-1/16MiB/16MiB+1/16MiB+4KiB sessions on memory, localdisk, diskpacked, encrypt, and (receive, put; batch in thorough) behind every buffering or re-routing store (replica, namespace, proxycache, blobpacked, cond, shard, overlay) over localdisk/diskpacked children that do not re-hash; distinct = (backend, path, mutation, position, reader, transport, ref); every case is non-trivial (an oracle decision on outcome, fetch, stat, enumeration and hub notifications)",
+		"per (backend, ingest path) session: seeded true blobs (sizes 0..64KiB+1, 1MiB in thorough; sha224/sha1/sha256; random/schema/text) each offered as itself and as 8 truncations, 4 extensions, 8 bit flips, 3 permutations, the same bytes under sha1/sha224/sha256 refs of other content, with failing sources, under refs of unknown hash names and under malformed names, before and after the true blob is stored, through 8 source-reader behaviours and 4 HTTP transports; multipart requests naming one ref twice (true bytes and a corruption, both orders); the same small-offer script (blobs at 1MiB-1/1MiB/1MiB+1 = the schema-sniffing cap, file schema blobs) behind every buffering, sniffing or re-routing store over localdisk/diskpacked children that do not re-hash, through receive/put/batch and through the stores' own ReceiveBlob with sources that fail mid-stream, once, after the last byte, or end in ErrCorruptBlob; overlapping offers of ONE ref (a valid one, a corrupt one of the same or another length or with a failing source, sometimes a third) through sources paused by the harness after their last byte or mid-stream, in 4 canonical and seeded schedules, on fresh and stored refs, on every backend through receive and recorder-driven put/batch, with the store probed while all unfinished offers are parked; plus 16MiB-1/16MiB/16MiB+1/16MiB+4KiB sessions on memory, localdisk, diskpacked, encrypt, and (receive, put; batch in thorough) behind every buffering or re-routing store (replica, namespace, proxycache, blobpacked, cond, shard, overlay) over localdisk/diskpacked children that do not re-hash; distinct = (backend, path, mutation, position, reader, transport, ref); every case is non-trivial (an oracle decision on outcome, fetch, stat, enumeration and hub notifications)",
 		run)
 }
 
@@ -142,6 +142,9 @@ type job struct {
 	// wrap: boundary session of a buffering / re-routing store over children that do not re-hash
 	wrap    bool
 	variant int
+	// mode: "" (the fields above decide) | "small-wrap" (small offers behind wrappers over children that
+	// do not re-hash, smallwrap.go) | "overlap" (concurrent offers of one ref, overlap.go)
+	mode string
 }
 
 func run(r *ev.Run) {
@@ -156,7 +159,8 @@ func run(r *ev.Run) {
 
 	var jobs, bigJobs []job
 	n := 0
-	for _, s := range backends(r) {
+	base := backends(r)
+	for _, s := range base {
 		paths := []string{"receive", "put", "batch"}
 		if s.Kind == "memory" || s.Kind == "encrypt" {
 			paths = append(paths, "direct")
@@ -183,6 +187,9 @@ func run(r *ev.Run) {
 	bigJobs = append(bigJobs, job{id: fmt.Sprintf("s%d", n), spec: sp("encrypt", nil, sp("localdisk", nil), mem()), path: "receive", big: true})
 	// the stores that buffer or re-route the stream, over children that store what they are given
 	bigJobs = append(bigJobs, wrappedBigJobs(r, &n)...)
+	// round 4 families (appended: the ids of the sessions above stay what they were)
+	jobs = append(jobs, smallWrapJobs(r, &n)...)
+	jobs = append(jobs, overlapJobs(r, base, &n)...)
 
 	bd := newBigData(r)
 	var wg sync.WaitGroup
@@ -216,7 +223,7 @@ func run(r *ev.Run) {
 	if os.Getenv("VERIF_ONLY") != "" {
 		return
 	}
-	r.Require("paths", "receive", "put", "batch", "direct")
+	r.Require("paths", "receive", "put", "batch", "direct", "direct-src")
 	r.Require("backend_kinds", "memory", "localdisk", "diskpacked", "blobpacked", "encrypt", "replica", "shard", "cond", "overlay", "namespace", "proxycache")
 	r.Require("mutations", "valid", "dup-valid", "trunc", "ext", "flip", "perm", "otherref", "unknown-hash", "malformed-name", "read-error", "dup-corrupt", "at-cap", "oversize", "ext-at-cap")
 	for _, p := range []string{"receive", "put", "batch"} {
@@ -231,9 +238,11 @@ func run(r *ev.Run) {
 	r.Require("boundary", "16MiB-1/want-accept", "16MiB/want-accept", "16MiB+1/want-reject", "16MiB+4KiB/want-reject", "16MiB+1-valid-prefix/want-reject")
 	r.Require("boundary_outcomes", "16MiB-1/accepted", "16MiB/accepted", "16MiB+1/rejected", "16MiB+4KiB/rejected")
 	requireWrapped(r)
+	requireSmallWrapped(r)
+	requireOverlap(r)
 	r.Require("batch_same_ref_orders", "valid-then-corrupt", "corrupt-then-valid", "valid-then-corrupt/ref-stored-before")
 	r.Require("outcomes", "accepted", "rejected")
-	r.Require("readers", "plain", "1byte", "half", "dataeof", "frag", "zero", "errk", "errk-eofwrap")
+	r.Require("readers", "plain", "1byte", "half", "dataeof", "frag", "zero", "errk", "errk-eofwrap", "gated")
 	r.Require("transports", "put:rec-nocl", "put:rec-cl", "put:srv-cl", "put:srv-chunked", "batch:rec-nocl", "batch:srv-cl", "batch:srv-chunked")
 	r.Require("views", "tmpfile-scan", "reopen")
 	if r.Thorough() {
@@ -251,7 +260,17 @@ func runJob(r *ev.Run, root string, j job, bd *bigData) {
 	markKinds(r, j.spec)
 	r.Note("backends", j.spec.String())
 	r.Count("sessions", 1)
-	if j.wrap {
+	switch {
+	case j.mode == "small-wrap":
+		s.opt = smallWrapOpt(r, j)
+	case j.mode == "overlap":
+		s.label += "+overlap"
+	}
+	if j.mode == "overlap" {
+		s.overlapScript()
+	} else if j.path == "direct-src" {
+		s.directSrcScript()
+	} else if j.wrap {
 		s.wrapScript(bd, j.variant)
 	} else if j.big {
 		s.bigScript(bd)
@@ -274,8 +293,15 @@ var blobSizes = []int{0, 1, 2, 17, 64, 255, 4096, 4097, 65537, 300, 1000}
 func (s *session) script() {
 	rng := s.rng
 	nTrue := s.r.Pick(6, 12)
+	if s.opt.nTrue > 0 {
+		nTrue = s.opt.nTrue
+	}
 	seen := map[blob.Ref]bool{}
 	present := func(of *offer) {
+		if s.opt.family != "" && of.Reader == "" && len(of.Data) >= bigSmall {
+			// a one-byte-at-a-time source over a real connection costs a system call per byte
+			of.Reader = fastReaders[rng.Intn(len(fastReaders))]
+		}
 		switch s.path {
 		case "batch":
 			s.batchAround(of, seen)
@@ -291,11 +317,29 @@ func (s *session) script() {
 		sizes = append(sizes, 1<<20, 1<<20+1, 262144)
 	}
 	rng.Shuffle(len(sizes), func(i, j int) { sizes[i], sizes[j] = sizes[j], sizes[i] })
+	if s.opt.sizes != nil {
+		sizes = s.opt.sizes
+	}
 	for i := 0; i < nTrue && !s.dead; i++ {
-		tb := genTrue(rng, i, sizes[i%len(sizes)], seen)
+		kind := ""
+		if i < len(s.opt.kinds) {
+			kind = s.opt.kinds[i]
+		}
+		tb := genTrueKind(rng, i, sizes[i%len(sizes)], seen, kind)
+		if s.opt.family != "" {
+			s.r.Note(s.opt.family+"_blobs", fmt.Sprintf("%s/%s", tb.Kind, sizeClass(len(tb.Data))))
+		}
 		muts := mutations(rng, tb)
 		rng.Shuffle(len(muts), func(a, b int) { muts[a], muts[b] = muts[b], muts[a] })
+		if s.opt.family != "" && len(tb.Data) >= bigSmall && !s.r.Thorough() {
+			muts = thinMuts(muts)
+		}
 		re := readErrorOffers(rng, tb)
+		if i%2 == 1 && len(re) > 1 {
+			// the source that delivers everything and then fails: before the ref is stored on odd blobs,
+			// while it is stored on even ones
+			re = append([]*offer{re[len(re)-1]}, re[:len(re)-1]...)
+		}
 		cut := len(muts) * 2 / 3
 		for _, of := range muts[:cut] {
 			present(of)
